@@ -41,7 +41,7 @@ def cases(tier):
                         if tier == "quick" and (df is not None and nk is not None and nk > 2):
                             continue
                         out.append(("bs", dk, (df, degree, intercept, nk)))
-    out += [("bs_bounds", kind, None) for kind in ("lower>upper", "knot<lower", "knot>upper", "knots2d", "df_float", "degree_float", "ok_bounds")]
+    out += [("bs_bounds", kind, None) for kind in ("lower>upper", "knot<lower", "knot>upper", "knots2d", "df_float", "degree_float", "ok_bounds", "knots_unsorted_out_high", "knots_unsorted_out_low", "knots_unsorted_ok")]
     return out
 
 
@@ -258,11 +258,12 @@ def harness(env, case):
         table = {
             "lower>upper": ("bs(x, df=4, lower_bound=8, upper_bound=2)", True), "knot<lower": ("bs(x, knots=kn, lower_bound=5)", True), "knot>upper": ("bs(x, knots=kn, upper_bound=5)", True),
             "knots2d": ("bs(x, knots=kn2)", True), "df_float": ("bs(x, df=4.5)", True), "degree_float": ("bs(x, df=4, degree=2.0)", True), "ok_bounds": ("bs(x, df=5, lower_bound=-1, upper_bound=11)", False),
+            "knots_unsorted_out_high": ("bs(x, knots=ku1)", True), "knots_unsorted_out_low": ("bs(x, knots=ku2)", True), "knots_unsorted_ok": ("bs(x, knots=ku3)", False),
         }
         f, must = table[n]
         try:
             with env.running(False):
-                design_matrices(f"y ~ {f}", data, extra_namespace={"kn": [3.0, 6.0], "kn2": [[3.0], [6.0]]})
+                design_matrices(f"y ~ {f}", data, extra_namespace={"kn": [3.0, 6.0], "kn2": [[3.0], [6.0]], "ku1": [3.0, 12.5, 5.0], "ku2": [4.0, -2.0, 6.0], "ku3": [6.0, 2.0, 4.0]})
             ok = True
         except Exception:  # noqa
             ok = False
